@@ -56,6 +56,14 @@ func (*Resolver).VisitConstDecl [C04, C10]
   ensures at(LP, mapHas(r.Module.PublicDecls, decl.NameTok.Literal)) ==> (mapHas(r.Module.PublicDecls, decl.NameTok.Literal) == at(LP, mapHas(r.Module.PublicDecls, decl.NameTok.Literal)) && r.Module.PublicDecls[decl.NameTok.Literal] == at(LP, r.Module.PublicDecls[decl.NameTok.Literal]))
   ensures !(mapHas(r.Module.PublicDecls, decl.NameTok.Literal) == at(LP, mapHas(r.Module.PublicDecls, decl.NameTok.Literal)) && r.Module.PublicDecls[decl.NameTok.Literal] == at(LP, r.Module.PublicDecls[decl.NameTok.Literal])) ==> r.Module.PublicDecls[decl.NameTok.Literal] == decl
 
+// ================= C16: argument maps =================
+// the arguments of a call / of a Kombination literal are resolved (and their diagnostics delivered - only the first
+// one of a statement gets through) in an order that does not depend on the iteration order of the argument map
+func (*Resolver).VisitFuncCall [C16]
+  ordered visit
+func (*Resolver).VisitStructLiteral [C16]
+  ordered visit
+
 // ================= C10: the export table =================
 // Module.PublicDecls is what an importer can see (ast.IterateImportedDecls reads nothing else). A declaration visitor
 // changes at most the entry of the declaration's own name, only for a declaration marked public, never overwrites an
